@@ -538,6 +538,7 @@ def c18_scenarios(tier, seed):
     out.append({"id": "c18-fresh-inproc", "mode": "fresh", "k": 30 if tier == "quick" else 300})
     out.append({"id": "c18-fresh-stale", "mode": "fresh", "k": 20 if tier == "quick" else 100, "stale": True})
     out.append({"id": "c18-fresh-procs", "mode": "fresh", "k": 4 if tier == "quick" else 16, "procs": True})
+    out.append({"id": "c18-fresh-procs-noautoseed", "mode": "fresh", "k": 4 if tier == "quick" else 16, "procs": True, "noAutoSeed": True})
     return out
 
 
